@@ -27,7 +27,7 @@ from .verdict import Report
 PROP = "X03"
 ALL_FIXES = {"edge", "override", "unblock", "unmentioned"}
 KINDS = {"ev": {"ok", "cable", "state", "stale", "edge"}, "pv": {"ok", "state", "stale", "edge"}}
-ST_BASE = dict(MaxAge=5, MinBlock=1, MaxBlock=4, TickW=1, MaxDepth=0, Horizon=0, MaxEvents=0)
+ST_BASE = dict(MaxAge=5, MinBlock=1, MaxBlock=4, TickW=1, MaxDepth=0, Horizon=0, MaxEvents=0, Regular=False)
 ST_STRICT = ["TypeOK", "DeviationFree", "WorkingImpliesHealthyAndFresh", "NotWorkingWhenDisqualified", "WorkingWhenHealthy",
              "ChannelIsStatus", "BackoffDoubles"]
 ST_CODED = ["TypeOK", "WorkingImpliesHealthyAndFreshOrDev", "NotWorkingWhenDisqualifiedOrDev", "WorkingWhenHealthy",
@@ -43,8 +43,9 @@ CID = 6  # component id of the tracked charger / inverter
 SCOPES = {
     "quick": dict(
         nproc=8,
-        st_gen=dict(Horizon=12, MaxEvents=5), st_gen_limit=450, st_race_limit=15,
-        st_sim=dict(Horizon=60, MaxEvents=60, MaxDepth=30, TickW=5), st_sim_num=100,
+        st_gen=dict(Horizon=12, MaxEvents=5), st_gen_limit=350, st_race_limit=12,
+        st_gen_regular=dict(Horizon=12, MaxEvents=6), st_gen_regular_limit=300,
+        st_sim=dict(Horizon=60, MaxEvents=60, MaxDepth=30, TickW=5), st_sim_num=60,
         mg_mc=dict(Reqs={0, 2500, 5000, 9000}, MaxSteps=5, MaxTicks=3),
         mg_deep=dict(Reqs={2500, 5000, 9000}, MaxSteps=7, MaxTicks=2, Kinds={"ok", "off"}, Uses={"zero", "full"}, UBs={4800}),
         mg_gen=dict(Reqs={0, 2500, 5000, 9000}, MaxSteps=4, MaxTicks=2), mg_gen_limit=700,
@@ -54,9 +55,10 @@ SCOPES = {
     "thorough": dict(
         nproc=16,
         st_gen=dict(Horizon=12, MaxEvents=7), st_gen_limit=20000, st_race_limit=400,
+        st_gen_regular=dict(Horizon=14, MaxEvents=8), st_gen_regular_limit=15000,
         st_sim=dict(Horizon=200, MaxEvents=200, MaxDepth=80, TickW=5), st_sim_num=6000,
         mg_mc=dict(Reqs={0, 2500, 4000, 6500, 9000}, MaxSteps=6, MaxTicks=4),
-        mg_deep=dict(Reqs={0, 2500, 5000, 9000}, MaxSteps=9, MaxTicks=3, Kinds={"ok", "off"}, Uses={"zero", "half", "full"}, UBs={4800}),
+        mg_deep=dict(Reqs={0, 2500, 5000, 9000}, MaxSteps=8, MaxTicks=3, Kinds={"ok", "off"}, Uses={"zero", "half", "full"}, UBs={4800}),
         mg_gen=dict(Reqs={0, 2500, 5000, 9000}, MaxSteps=5, MaxTicks=3), mg_gen_limit=30000,
         mg_gen_deep=dict(Reqs={2500, 5000, 9000}, MaxSteps=8, MaxTicks=2, Outs={"ok", "to"}, Kinds={"ok", "off"}, Uses={"zero", "full"}, UBs={4800}), mg_gen_deep_limit=15000,
         mg_sim=dict(N=3, Reqs={0, 2500, 4000, 6500, 9000, 14000}, MaxSteps=200, MaxTicks=200, MaxDepth=80), mg_sim_num=8000,
@@ -412,10 +414,17 @@ def _st_jobs(sc: dict) -> list[dict]:
         jobs.append(dict(part="st", comp=comp, module="ComponentStatus", name=f"st_{comp}_gen", emit=True,
                          consts=_st_consts(comp, sc["st_gen"], "gen", set()), invs=ST_CODED, props=ST_PROPS, limit=sc["st_gen_limit"],
                          mode="exhaustive+emit (one history per transition)"))
+        # regular environment: nothing triggers a named deviation, the unrepaired model itself is deviation free
+        jobs.append(dict(part="st", comp=comp, module="ComponentStatus", name=f"st_{comp}_gen_regular", emit=True,
+                         consts=_st_consts(comp, dict(sc["st_gen_regular"], Regular=True), "gen", set()), invs=ST_STRICT, props=ST_PROPS,
+                         limit=sc["st_gen_regular_limit"], mode="exhaustive+emit, regular environment (strict clauses on the unrepaired model)"))
         num = f"num={max(1, sc['st_sim_num'] // 4)}"
         jobs.append(dict(part="st", comp=comp, module="ComponentStatus", name=f"st_{comp}_sim", emit=True, simulate=num,
                          consts=_st_consts(comp, dict(sc["st_sim"], Kinds=KINDS[comp] | {"lag"}), "sim", set()), invs=ST_CODED,
                          limit=sc["st_sim_num"], mode="simulate " + num))
+        jobs.append(dict(part="st", comp=comp, module="ComponentStatus", name=f"st_{comp}_sim_regular", emit=True, simulate=num,
+                         consts=_st_consts(comp, dict(sc["st_sim"], Regular=True), "sim", set()), invs=ST_STRICT,
+                         limit=sc["st_sim_num"], mode="simulate " + num + ", regular environment"))
     return jobs
 
 
@@ -478,10 +487,11 @@ def _st_after(rep: Report, sc: dict, jobs: list[dict]) -> None:
         rows = [r_ for r_ in byid.values() if r_["comp"] == comp]
         if rows:
             rep.samples.append(dict(part="tracker", trace=rows[len(rows) // 2]))
-    shown: dict[str, int] = {}
+    shown: dict = {}
     for v in fails:
-        shown[v["clause"]] = shown.get(v["clause"], 0) + 1
-        full = shown[v["clause"]] <= 4
+        key = (v["clause"], bool(v.get("deviations")))  # whole traces for the first few records of each kind
+        shown[key] = shown.get(key, 0) + 1
+        full = shown[key] <= 4
         tr = byid.get(v["tid"]) or {}
         case = dict(part="tracker", kind=tr.get("comp"), stage=tr.get("src"), trace=(tr if full else None), trace_id=v["tid"],
                     line=v.get("l"), constants=_plain(dict(consts, CompKind=tr.get("comp", "ev"))))
@@ -519,7 +529,7 @@ def _st_after(rep: Report, sc: dict, jobs: list[dict]) -> None:
 EV_ID = 10  # charger index c <-> component id 10 + c
 VOLT = 100.0  # V per phase: initial power 100 * 10 A * 3 = 3000 W, minimum power 100 * 6 A * 3 = 1800 W
 TICK_S = 30.0
-TIMEOUT_S = 1.0
+TIMEOUT_S = 0.25  # api_power_request_timeout; at most MaxDepth timeouts per execution stay far below one 30 s tick
 MG_BASE = dict(N=2, InitP=3000, MinP=1800, Interval=2, UBs={2400, 4800}, Kinds={"ok", "off", "nr"}, Uses={"zero", "half", "full"},
                Outs={"ok", "err", "exc", "to"}, MaxDepth=0)
 MG_ALL_FIXES = {"disc", "clamp", "cap"}
@@ -839,10 +849,11 @@ def _mg_after(rep: Report, sc: dict, jobs: list[dict]) -> None:
     rows = list(byid.values())
     if rows:
         rep.samples.append(dict(part="manager", trace=rows[len(rows) // 2]))
-    shown: dict[str, int] = {}
+    shown: dict = {}
     for v in fails:
-        shown[v["clause"]] = shown.get(v["clause"], 0) + 1
-        full = shown[v["clause"]] <= 4
+        key = (v["clause"], bool(v.get("deviations")))  # whole traces for the first few records of each kind
+        shown[key] = shown.get(key, 0) + 1
+        full = shown[key] <= 4
         tr = byid.get(v["tid"]) or {}
         case = dict(part="manager", stage=tr.get("src"), trace=(tr if full else None), trace_id=v["tid"], line=v.get("l"),
                     constants=_plain(dict(consts, N=tr.get("n", consts["N"]))))
@@ -892,6 +903,18 @@ def replay(prop: str, data: dict) -> int:  # pylint: disable=unused-argument
                                       unconsumed_clause=f"{PROP}.TraceNotExplainedBySpec", dfs_queue=True)
         for x in rec["lines"]:
             print(f"t={x['t']:3d} {x['ev']:5s} {x['kind']:6s} k={x['k']:2d} f={x['f']:4s} sent={x['sent']} proj={x['proj']}")
+    elif case.get("part") == "manager":
+        rec = mg_execute_lines(trace, consts)
+        dump_ndjson(shard, [rec])
+        tfix = {x for x in os.environ.get("VERIF_X03_MG_FIXES", "").split(",") if x}
+        fails, _, _ = validate_shards("EVChargerPowerTrace", [shard], d, constants=dict(consts, Mode="trace", N=rec["n"], Fixes=tfix))
+        for x in rec["lines"]:
+            print(f"t={x['t']:7.1f} {x['ev']:4s} c={x['c']} {x['kind']:3s} pw={x['pw']:5d} ub={x['ub']:5d} p={x['p']:5d} o={x['o']} "
+                  f"calls={[(c['c'], c['p']) for c in x['calls']]} alloc={x['alloc']} res={x['res']['type']}")
+        for v in fails:
+            if v["clause"].startswith("CONF."):
+                print(f"disagreement with the transcription: {v['clause']} line={v.get('l')} {json.dumps(v.get('detail'))[:200]}")
+        fails = [v for v in fails if not v["clause"].startswith("CONF.")]
     else:
         print(json.dumps(data, indent=1)[:4000])
         return 0
